@@ -598,6 +598,104 @@ def dispatches(flat, acc=None):
     return acc
 
 
+def literal_table(pf):
+    """the switch in xpr::Primary_expr::visit(const Literal&): for each case value (None = default) what is written.
+    Pieces: ["str", [bytes]] a string or character literal; ["raw"] the byte itself (static_cast<char>(*cur));
+    ["num"] the byte's value as a number (static_cast<int>(*cur)); ["manip", name]; ["other", kind] anything else."""
+    fid = None
+    for f, nm in pf.func_name.items():
+        if nm == "xpr::Primary_expr::visit(Literal)":
+            fid = f
+    if fid is None:
+        return None
+    sw = [m for m in walk(pf.funcs[fid]) if m.get("kind") == "SwitchStmt"]
+    if len(sw) != 1:
+        return None
+    body = [c for c in kids(sw[0]) if c.get("kind") == "CompoundStmt"]
+    if not body:
+        return None
+
+    def value_of(c):
+        for m in walk(c):
+            if m.get("kind") == "CharacterLiteral":
+                return int(m.get("value"))
+            if m.get("kind") == "IntegerLiteral":
+                return int(m.get("value"))
+        return None
+
+    def pieces_of(e, out):
+        e2 = e
+        while e2.get("kind") in WRAP and e2.get("kind") != "CXXStaticCastExpr" and kids(e2):
+            e2 = kids(e2)[0]
+        k = e2.get("kind")
+        if k == "CXXOperatorCallExpr" and len(kids(e2)) == 3:
+            pieces_of(kids(e2)[1], out)
+            pieces_of(kids(e2)[2], out)
+            return
+        if k == "MemberExpr" and e2.get("name") == "pp":
+            return
+        if k == "StringLiteral":
+            v = e2.get("value", "")
+            m = re.match(r'^(?:u8)?"(.*)"$', v, re.S)
+            if m:
+                bs = list(bytes(m.group(1), "utf-8").decode("unicode_escape").encode("latin1"))
+                out.append(["str", bs])
+                return
+        if k == "CharacterLiteral":
+            out.append(["str", [int(e2.get("value"))]])
+            return
+        if k in ("CXXStaticCastExpr", "CStyleCastExpr", "CXXFunctionalCastExpr"):
+            t = e2.get("type", {}).get("qualType", "")
+            inner = json.dumps(e2)
+            if '"name": "cur"' in inner or "cur" in inner:
+                if t == "char":
+                    out.append(["raw"])
+                    return
+                if t in ("int", "unsigned int", "unsigned", "long"):
+                    out.append(["num"])
+                    return
+        if k == "DeclRefExpr" and e2.get("referencedDecl", {}).get("name") in MANIPS:
+            out.append(["manip", e2["referencedDecl"]["name"]])
+            return
+        out.append(["other", str(k)])
+
+    rows = []
+    pending = []          # case values waiting for their statements (fall-through labels)
+    cur = None
+
+    def flush():
+        nonlocal cur
+        if cur is not None:
+            rows.append(cur)
+            cur = None
+
+    def stmt(n):
+        nonlocal cur, pending
+        k = n.get("kind")
+        if k in ("CaseStmt", "DefaultStmt"):
+            flush()
+            val = None if k == "DefaultStmt" else value_of(kids(n)[0])
+            pending.append(val)
+            sub = kids(n)[-1] if kids(n) else None
+            if sub is not None and sub.get("kind") in ("CaseStmt", "DefaultStmt"):
+                stmt(sub)
+                return
+            cur = {"values": pending, "pieces": []}
+            pending = []
+            if sub is not None and sub.get("kind") != "BreakStmt" and not (k == "CaseStmt" and sub is kids(n)[0]):
+                pieces_of(sub, cur["pieces"])
+            return
+        if k == "BreakStmt":
+            flush()
+            return
+        if cur is not None:
+            pieces_of(n, cur["pieces"])
+    for c in kids(body[0]):
+        stmt(c)
+    flush()
+    return rows
+
+
 def extract(objs):
     pf = PrinterFacts(objs)
     classes = {}
@@ -665,7 +763,11 @@ def extract(objs):
             if m.get("kind") in ("VarDecl", "FieldDecl") and re.search(r"std::(unordered_)?(map|set)<[^,>]*\*", t):
                 unordered.append((pf.func_name.get(fid, "?"), "container keyed by a pointer: " + t[:80]))
     # calls between functions, to see that every location read sits under a gate test
-    return {"classes": classes, "handlers": handlers, "entries": entries, "manips": sorted(set(manips)),
+    try:
+        lit = literal_table(pf)
+    except Exception as ex:            # fail closed: no table
+        lit = None
+    return {"literal": lit, "classes": classes, "handlers": handlers, "entries": entries, "manips": sorted(set(manips)),
             "address_uses": sorted(set(addr) | set(unordered)), "location_reads": sorted(set(loc_reads)), "location_gates": sorted(set(gate_tests))}
 
 
